@@ -7,6 +7,36 @@ from pathlib import Path
 VERIF = Path(__file__).resolve().parents[1]
 
 CHECKS = {
+    "C10": dict(
+        category="exploration", design_ref="DESIGN.md §2 C10",
+        technique="input-space monitor: pointer byte grammar x histories with uncommitted metadata files x follow-up ops, state compared with the committed state seen by an independent reader",
+        text="For 5 history shapes (incl. commits failed at the pointer write and equal-version committed/uncommitted "
+             "files in both mtime orders) the pointer file is replaced by each element of a byte-level grammar; then "
+             "load / create_table(other schema) / append / collect run and the table is reopened. Identity, schema, "
+             "snapshot list, rows of every retained snapshot must equal the committed state (+ the append), and no "
+             "never-committed snapshot may surface. Known design-level defects are reported as KNOWN-FINDING lines.",
+        note="Committed state = last pointer target observed by the harness, read by the independent reader.",
+    ),
+    "C11": dict(
+        category="exploration", design_ref="DESIGN.md §2 C11",
+        technique="pre/post contract monitor around every append over an enumerated matrix of value classes, schema-argument variants, handle freshness and APIs",
+        text="Every append (11 types x all value classes as one multi-append history; 13 schema-argument variants x "
+             "schema id x fresh/reused handle x 2 APIs; 7 pre-built parquet footers) is wrapped in a contract checked "
+             "by the independent reader: raise => snapshot list, reachable files and rows unchanged; accept => scan == "
+             "model + new row value-exact up to the type's representation, and every column still answers ==/is_null "
+             "filters correctly on fresh and reused handles, followed by further appends.",
+        note="Text<->binary and raw-int->temporal coercions are counted, not judged.",
+    ),
+    "C14": dict(
+        category="fault_enumeration", design_ref="DESIGN.md §2 C14",
+        technique="enumerated damage (delete/truncate/flip/garbage/swap/transient) of every file reachable from the current snapshot x 11 read API variants, oracle 'exception or exactly the undamaged answer'",
+        text="Every file reachable from the current snapshot (metadata JSON, manifest list, manifests incl. a rewritten "
+             "one, data files) and the pointer is deleted, truncated at structural offsets, byte-flipped, replaced by "
+             "garbage / '{}' / a sibling, or made to fail transiently on first read; each of 11 read API/option "
+             "variants runs through a fresh handle. The outcome must be an exception or exactly the undamaged answer; "
+             "with checksum verification on, any byte change of a data file must raise.",
+        note="Damage that an independent parser still reads as different valid content is counted, not judged.",
+    ),
     "C05": dict(
         category="exploration", design_ref="DESIGN.md §2 C05",
         technique="history monitor: deletion set of each collect() vs reachable/in-flight sets computed by an independent reader, over table-location spellings",
